@@ -48,6 +48,7 @@ PINS["cumsum VJP returns a cotangent of the argument"] = ("C15", ["regress/C15/c
 PINS["linspace VJP unbroadcasts"] = ("C01", ["regress/C01/linspace-broadcast.json"])
 PINS["linspace JVP broadcasts"] = ("C02", ["regress/C02/linspace-broadcast-jvp.json"])
 PINS["absolute has a finite"] = ("C01", ["regress/C01/absolute-at-zero.json", "regress/C02/absolute-at-zero-jvp.json"])
+PINS["linspace VJP contracts the sample axis"] = ("C01", ["regress/C01/linspace-rank2.json"])
 EXTRA = {}
 
 
